@@ -63,6 +63,8 @@ def gen_file(r, fi, nblocks, scripts, counter):
         sb = scenario.gen_block(r, "n%d" % counter[0], scripts, use_ai=False, use_lua=True)
         attrs = [(k, v) for k, v in sb.attrs]
         attrs.insert(1, ("data-rev", str(r.randint(1, 8))))
+        if r.random() < 0.08:
+            attrs.append(("data-pad", "p" * r.choice([900, 1100, 2500])))      # tag lines longer than 1 KiB
         layout = "line"
         if ext in ("rs", "go", "js") and r.random() < 0.25:
             layout = r.choice(["shared", "shared-mb", "mltag", "mltag-late", "mlcomment", "mlcomment"])
